@@ -47,7 +47,9 @@ EXEMPT = {
                               "quantifier (readers only read); recorded as a hazard for multi-socket groups",
 }
 READERS = ["pfx_table_validate_r", "pfx_table_for_each_ipv4_record", "pfx_table_for_each_ipv6_record",
-           "spki_table_get_all", "spki_table_search_by_ski"]
+           "spki_table_get_all", "spki_table_search_by_ski",
+           # the copy walks the source list with a cursor: giving the lock up in the middle would leave the cursor dangling
+           "spki_table_copy_except_socket"]
 
 
 def lockset(ctx, retsets):
